@@ -550,7 +550,8 @@ package valid
 
 //@ func ValidNamesSplit
 //@   modifies nothing
-//@   ensures fresh(sliceptr(result)) || result == nil
+//@   ensures [C14 C12 split.fresh] fresh(sliceptr(result)) || result == nil
+//@   ensures [C14 split.empty] s == "" ==> result == nil
 //@   loop#0 invariant fresh(sliceptr(res)) && fresh(sliceptr(tmp)) && stack != nil && fresh(stack) && (sliceptr(stack.data) == 0 || fresh(sliceptr(stack.data)))
 //@   loop#0 invariant 0 <= i && l == len(s)
 //@   loop#0 decreases l - i
